@@ -422,3 +422,187 @@ Proof.
     + rewrite forallb_map. reflexivity.
     + rewrite existsb_map. reflexivity.
 Qed.
+
+(* ------------------------------------------------------------------ the fixed-length window loop *)
+Section Window.
+  Variables (F : nat) (r : rx).
+  Hypothesis Haf : assertion_free (r_prog r) = true.
+  Hypothesis Hfs : facts_sound r.
+  Hypothesis Hnc : 2 <= r_ncap r.
+  Hypothesis Hmm : f_min (r_facts r) = f_max (r_facts r).
+  Hypothesis Hfin : (f_max (r_facts r) < MAXU)%N.
+  Hypothesis Hsne : f_suffix (r_facts r) <> [].
+
+  Let n := N.to_nat (f_min (r_facts r)).
+  Let S := f_suffix (r_facts r).
+
+  Lemma acc_len : forall w, accepts (r_prog r) w -> length w = n.
+  Proof.
+    intros w Hw. destruct Hfs as [_ [_ Hl]]. destruct (Hl _ Hw) as [A B]. rewrite <- Hmm in B, Hfin.
+    specialize (B Hfin). unfold len in *. unfold n. lia.
+  Qed.
+
+  Lemma acc_suffix_at : forall t j e, j <= e -> e <= length t -> accepts (r_prog r) (slice t j e) ->
+    e = j + n /\ length S <= n /\ is_prefix S (skipn j (skipn (n - length S) t)) = true.
+  Proof.
+    intros t j e A B Hw. pose proof (acc_len _ Hw) as L. rewrite slice_length in L by assumption.
+    destruct Hfs as [_ [Hsuf _]]. destruct (slice_suffix _ _ _ _ A B (Hsuf _ Hw)) as [C D]. fold S in C, D.
+    repeat split; try lia. rewrite skipn_skipn. replace (j + (n - length S)) with (e - length S) by lia. exact D.
+  Qed.
+
+  (* searching the window of length n at the front of t is trying a match at position 0 of t *)
+  Lemma window_front : forall t,
+    plain F r (firstn n t) = match_at F (r_prog r) (r_ncap r) t 0.
+  Proof.
+    intros t. unfold plain, search.
+    set (T := firstn n t).
+    assert (LT : length T <= n) by (unfold T; rewrite firstn_length; lia).
+    assert (M0 : match_at F (r_prog r) (r_ncap r) T 0 = match_at F (r_prog r) (r_ncap r) t 0).
+    { unfold match_at, T. destruct (Nat.le_ge_cases n (length t)) as [L | L].
+      - apply bt_truncate; auto; try lia. intros e A B C. destruct (acc_suffix_at t 0 e A B C) as [E _]. lia.
+      - rewrite firstn_all2 by lia. reflexivity. }
+    simpl. rewrite M0. destruct (match_at F (r_prog r) (r_ncap r) t 0); auto.
+    apply search_from_none. intros j A B.
+    destruct (match_at F (r_prog r) (r_ncap r) T j) eqn:E; auto. exfalso.
+    assert (Hj : j <= length T) by lia.
+    destruct (match_at_sound _ _ _ _ _ _ Hj E) as [e [X [Y Z]]].
+    pose proof (acc_len _ Z) as L. rewrite slice_length in L by assumption. lia.
+  Qed.
+
+  Lemma search_head : forall t c, match_at F (r_prog r) (r_ncap r) t 0 = Some c -> search F (r_prog r) (r_ncap r) t = Some c.
+  Proof. intros t c H. unfold search. simpl. rewrite H. reflexivity. Qed.
+
+  Lemma search_tail : forall x t, match_at F (r_prog r) (r_ncap r) (x :: t) 0 = None ->
+    search F (r_prog r) (r_ncap r) (x :: t) = option_map (shift 1) (search F (r_prog r) (r_ncap r) t).
+  Proof.
+    intros x t H. apply (search_skip F (r_prog r) (r_ncap r) [x] t Haf). intros j Hj. simpl in Hj.
+    assert (j = 0) by lia. subst. exact H.
+  Qed.
+
+  Lemma window_nil : forall fuel total off, window F r fuel total [] off = (None, total).
+  Proof.
+    intros fuel total off. destruct fuel; simpl; auto.
+    rewrite skipn_nil. fold S. destruct S eqn:ES; [contradiction|]. reflexivity.
+  Qed.
+
+  Lemma window_spec : forall fuel total buffer off res off', length buffer < fuel ->
+    window F r fuel total buffer off = (res, off') ->
+    match res with
+    | Some m => plain F r buffer = Some (shift (off' - off) m) /\ off <= off' /\ off' - off <= length buffer /\ match_end m <> 0
+    | None => plain F r buffer = None /\ off' = total
+    end.
+  Proof.
+    induction fuel as [|f IH]; intros total buffer off res off' Hf H; [lia|].
+    simpl in H. fold n in H. fold S in H.
+    pose proof (index_of_spec S (skipn (n - length S) buffer)) as IS.
+    destruct (index_of S (skipn (n - length S) buffer)) as [pos|].
+    - destruct IS as [P1 [P2 P3]].
+      assert (Hpos : pos <= length buffer) by (rewrite skipn_length in P1; lia).
+      (* no match starts before pos *)
+      assert (Skip : plain F r buffer = option_map (shift pos) (plain F r (skipn pos buffer))).
+      { unfold plain.
+        assert (Lp : length (firstn pos buffer) = pos) by (rewrite firstn_length; lia).
+        pose proof (search_skip F (r_prog r) (r_ncap r) (firstn pos buffer) (skipn pos buffer) Haf) as SK.
+        rewrite firstn_skipn, Lp in SK. apply SK. intros j Hj.
+        destruct (match_at F (r_prog r) (r_ncap r) buffer j) eqn:M; auto. exfalso.
+        assert (Hjl : j <= length buffer) by lia.
+        destruct (match_at_sound _ _ _ _ _ _ Hjl M) as [e [X [Y Z]]].
+        destruct (acc_suffix_at buffer j e X Y Z) as [_ [_ Q]]. rewrite P3 in Q by assumption. discriminate. }
+      set (b1 := skipn pos buffer) in *.
+      rewrite window_front in H.
+      destruct (match_at F (r_prog r) (r_ncap r) b1 0) as [m|] eqn:M0.
+      + inversion H; subst res off'. clear H.
+        rewrite Skip. unfold plain. rewrite (search_head _ _ M0). simpl.
+        replace (off + pos - off) with pos by lia. repeat split; auto; try lia.
+        assert (H0 : 0 <= length b1) by lia.
+        destruct (match_at_end _ _ _ _ _ _ Hnc H0 M0) as [e [X [Y [Z W]]]].
+        destruct (acc_suffix_at b1 0 e X Y Z) as [E [Ls _]].
+        unfold match_end. rewrite W. destruct S eqn:ES; [contradiction|]. simpl in Ls. lia.
+      + destruct b1 as [|x b2] eqn:Eb.
+        * (* nothing left *)
+          simpl in H. rewrite window_nil in H. inversion H; subst res off'. split; auto.
+          rewrite Skip. unfold plain, search. simpl. rewrite M0. reflexivity.
+        * simpl in H.
+          assert (Hl : length b2 < f).
+          { assert (L1 : length b1 = Datatypes.S (length b2)) by (rewrite Eb; reflexivity).
+            unfold b1 in L1. rewrite skipn_length in L1. lia. }
+          specialize (IH total b2 (Datatypes.S (off + pos)) res off' Hl H).
+          assert (Tl : plain F r (x :: b2) = option_map (shift 1) (plain F r b2)) by (apply search_tail; exact M0).
+          assert (L1 : length b1 = Datatypes.S (length b2)) by (rewrite Eb; reflexivity).
+          unfold b1 in L1. rewrite skipn_length in L1.
+          destruct res as [m|].
+          -- destruct IH as [C [D [E G]]]. rewrite Skip, Tl, C. simpl. rewrite !shift_shift.
+             repeat split; auto; try lia. f_equal. f_equal. lia.
+          -- destruct IH as [C E]. split; auto. rewrite Skip, Tl, C. reflexivity.
+    - (* the suffix does not occur where a match would need it *)
+      inversion H; subst. split; auto. unfold plain.
+      destruct (search F (r_prog r) (r_ncap r) buffer) as [c|] eqn:E; auto. exfalso.
+      destruct (search_sound _ _ _ _ _ E) as [j [e [X [Y Z]]]].
+      destruct (acc_suffix_at buffer j e X Y Z) as [Ee [Ls Q]].
+      rewrite IS in Q; [discriminate|]. rewrite skipn_length. lia.
+  Qed.
+End Window.
+
+(* the suffix cut on its own *)
+Lemma suffix_cut : forall F r buffer, assertion_free (r_prog r) = true -> facts_sound r -> f_suffix (r_facts r) <> [] ->
+  match last_index_of (f_suffix (r_facts r)) buffer with
+  | Some q => plain F r (firstn (q + length (f_suffix (r_facts r))) buffer) = plain F r buffer
+  | None => plain F r buffer = None
+  end.
+Proof.
+  intros F r buffer Haf [_ [Hsuf _]] Hne.
+  pose proof (last_index_of_spec (f_suffix (r_facts r)) buffer) as LS.
+  destruct (last_index_of (f_suffix (r_facts r)) buffer) as [q|].
+  - destruct LS as [A [B C]]. unfold plain. apply search_truncate; auto.
+    + pose proof (is_prefix_length _ _ B) as Q. rewrite skipn_length in Q. lia.
+    + intros i e X Y Z. destruct (slice_suffix _ _ _ _ X Y (Hsuf _ Z)) as [W1 W2].
+      assert (Hel : e - length (f_suffix (r_facts r)) <= length buffer) by lia.
+      specialize (C _ Hel W2). lia.
+  - unfold plain. destruct (search F (r_prog r) (r_ncap r) buffer) as [c|] eqn:E; auto. exfalso.
+    destruct (search_sound _ _ _ _ _ E) as [j [e [X [Y Z]]]].
+    destruct (slice_suffix _ _ _ _ X Y (Hsuf _ Z)) as [W1 W2]. rewrite LS in W2 by lia. discriminate.
+Qed.
+
+(* Theorem A, complete: every branch of find *)
+Theorem find_shortcut_plain : forall F guard r data off res off',
+  assertion_free (r_prog r) = true -> facts_sound r -> 2 <= r_ncap r -> off <= length data ->
+  (* the window loop computes with the common value of min and max as a length: it must not be the code's "infinite" *)
+  (f_min (r_facts r) = f_max (r_facts r) -> (f_max (r_facts r) < MAXU)%N) ->
+  find F guard r data off = (res, off') -> find_agrees F r data off res off'.
+Proof.
+  intros F guard r data off res off' Haf Hfs Hnc Hoff Hfin H.
+  destruct (N.eqb (f_min (r_facts r)) (f_max (r_facts r)) && match f_prefix (r_facts r) with [] => true | _ => false end
+            && match f_suffix (r_facts r) with [] => false | _ => true end) eqn:W.
+  2:{ eapply find_shortcut_plain_partial; eauto. }
+  apply andb_true_iff in W. destruct W as [W W3]. apply andb_true_iff in W. destruct W as [W1 W2].
+  apply N.eqb_eq in W1.
+  destruct (f_prefix (r_facts r)) as [|p0 ps] eqn:EP; [|discriminate].
+  assert (Hsne : f_suffix (r_facts r) <> []) by (destruct (f_suffix (r_facts r)); [discriminate | discriminate]).
+  unfold find in H. unfold context_sensitive in H. rewrite Haf in H. simpl negb in H. rewrite andb_false_r in H.
+  rewrite EP in H.
+  set (buffer := skipn off data) in *.
+  assert (Lb : length buffer = length data - off) by (unfold buffer; apply skipn_length).
+  destruct (too_short buffer (f_min (r_facts r))) eqn:TS.
+  { inversion H; subst res off'. unfold find_agrees. fold buffer. repeat split; auto; apply plain_too_short; auto. }
+  pose proof (suffix_cut F r buffer Haf Hfs Hsne) as SC.
+  destruct (f_suffix (r_facts r)) as [|s0 ss] eqn:ES; [congruence|].
+  destruct (last_index_of (s0 :: ss) buffer) as [q|] eqn:LI.
+  2:{ inversion H; subst res off'. unfold find_agrees. fold buffer. repeat split; auto; try lia.
+      eapply plain_none_later with (a := off); eauto. }
+  set (buffer2 := firstn (q + length (s0 :: ss)) buffer) in *.
+  destruct (too_short buffer2 (f_min (r_facts r))) eqn:TS2.
+  { inversion H; subst res off'. unfold find_agrees. fold buffer.
+    assert (N2 : plain F r buffer = None) by (rewrite <- SC; apply plain_too_short; auto).
+    repeat split; auto. }
+  rewrite W1, N.eqb_refl in H. simpl in H.
+  assert (L2 : length buffer2 <= length buffer) by (unfold buffer2; rewrite firstn_length; lia).
+  assert (Hsne' : f_suffix (r_facts r) <> []) by (rewrite ES; discriminate).
+  pose proof (window_spec F r Haf Hfs Hnc W1 (Hfin W1) Hsne' (Datatypes.S (length buffer2)) (length data) buffer2 off res off'
+                (Nat.lt_succ_diag_r _) H) as WS.
+  destruct res as [m|].
+  - destruct WS as [A [B [C D]]]. unfold find_agrees. fold buffer. repeat split; auto; try lia.
+    rewrite <- SC. exact A.
+  - destruct WS as [A B]. subst off'. unfold find_agrees. fold buffer. repeat split; auto; try lia.
+    + rewrite <- SC. exact A.
+    + eapply plain_none_later with (a := off); eauto. fold buffer. rewrite <- SC. exact A.
+Qed.
